@@ -37,8 +37,12 @@ import os
 import sys
 from fractions import Fraction
 
-from verifpy import (Unit, Result, Reject, replay_main, SEED, TIER, WORK, REPO, BUILD, JOBS, param, run,
+from verifpy import (Unit, Result, Reject, replay_main, SEED, TIER, WORK, REPO, BUILD, JOBS, KNOWN, param, run,
                      parallel_map, fnv, libdirs)
+
+# classes that are only kept out of the main generator while they are listed as known findings
+SQRT_KNOWN = "C20.unit.square_root" in KNOWN
+ABS_VIEW_KNOWN = "C20.positive.rejected.abs_of_view" in KNOWN
 
 # ------------------------------------------------------------------ units
 NAMED = {
@@ -550,7 +554,7 @@ class Builder:
     def no_bare_view(self, e):
         """tfel::math::abs cannot be instantiated for the views qt_ref / const_qt_ref (reported by the
         sub-check "abs_view"): elsewhere a bare view below abs is turned into a value by `1 * v` (exact)"""
-        if e["k"] == "v" and self.vars[e["i"]]["form"] in ("ref", "cref"):
+        if ABS_VIEW_KNOWN and e["k"] == "v" and self.vars[e["i"]]["form"] in ("ref", "cref"):
             return {"k": "bin", "op": "*", "a": {"k": "i", "x": 1}, "b": e}
         return e
 
@@ -568,7 +572,15 @@ class Builder:
             else:
                 i = self.new_var(unit=d(st.sampled_from(NAMES)))
             return {"k": "v", "i": i}, var_unit(self.vars[i])
-        c = d(st.sampled_from(["mul", "mul", "div", "div", "pow", "pow", "add", "add", "neg", "abs", "scal", "rdiv"]))
+        c = d(st.sampled_from(["mul", "mul", "div", "div", "pow", "pow", "add", "add", "neg", "abs", "scal", "rdiv"] +
+                              ([] if SQRT_KNOWN else ["sqrt"])))
+        if c == "sqrt":
+            # square_root is an ordinary operation unless it is a listed known finding (then only the
+            # sub-check "square_root" produces it: one failing program spoils a whole batch)
+            a, ua = self.any_expr(depth - 1)
+            if max(x.denominator for x in ua) > 30:
+                return a, ua
+            return {"k": "sqrt", "a": {"k": "abs", "a": self.no_bare_view(a)}}, upow(ua, 1, 2)
         if c in ("mul", "div"):
             a, ua = self.any_expr(depth - 1)
             b, ub = self.any_expr(depth - 1)
